@@ -56,8 +56,9 @@ impl<'a> ZipFile<'a> {
 //@use zipfile_is_dir nobody
 //@use zipfile_is_file nobody
 //@use zipfile_unix_mode nobody
+//@use zipfile_skip_rest nobody
 }
-//@use read_zipfile_from_stream nobody
+//@use read_zipfile_or_end_from_stream nobody
 //@use central_header_to_zip_file_inner nobody
 pub mod zip_archive {
     use super::*;
@@ -97,7 +98,10 @@ pub trait ZipStreamVisitor {
     fn visit_file(&mut self, file: &mut ZipFile<'_>) -> (r: ZipResult<()>)
         requires old(self).v_inv(), zf_wf(old(file)),
         ensures final(self).v_inv(), final(self).v_logs() == old(self).v_logs(),
-            final(self).v_logs() ==> final(self).v_log() == old(self).v_log().push(false);
+            final(self).v_logs() ==> final(self).v_log() == old(self).v_log().push(false),
+            // a visitor reaches the entry only through its public methods, all of which keep it well formed (proved in U8); the
+            // entry is still the streamed one it was handed
+            zf_wf(final(file)), final(file).data == old(file).data;
     fn visit_additional_metadata(&mut self, metadata: &ZipStreamFileMetadata) -> (r: ZipResult<()>)
         requires old(self).v_inv(),
         ensures final(self).v_inv(), final(self).v_logs() == old(self).v_logs(),
@@ -108,8 +112,39 @@ pub open spec fn log_extends(before: Seq<bool>, after: Seq<bool>) -> bool {
     before.len() <= after.len() && forall|i: int| 0 <= i < before.len() ==> #[trigger] after[i] == before[i]
 }
 pub open spec fn files_only_from(s: Seq<bool>, k: int) -> bool { forall|i: int| k <= i < s.len() ==> !#[trigger] s[i] }
+// the entries ended at an end record (APPNOTE 4.3.16 / 4.3.14 signatures), not at a central directory header
+pub open spec fn ends_without_directory(d: Seq<u8>, p: int) -> bool { sig_at(d, p, 0x06054b50u32) || sig_at(d, p, 0x06064b50u32) }
 pub open spec fn files_before_metas_from(s: Seq<bool>, k: int) -> bool {
     forall|i: int, j: int| k <= i <= j < s.len() && #[trigger] s[i] ==> #[trigger] s[j]
+}
+// T7x in both extractors: `io::copy(file, &mut outfile)` with an entry as the source.
+// TRANSCRIPTION of std::io::copy (generic path `stack_buffer_copy`: read into an 8 KiB stack buffer until Ok(0), write_all every
+// chunk, count the bytes; the retry on ErrorKind::Interrupted is omitted - the I/O model has no such kind).  The body is VERIFIED
+// against ZipFile::read's proved contract (unit U8), so "the entry is still well formed and still the same entry afterwards" is
+// derived.  Termination is not claimed (a decoder may produce output without bound): partial correctness only.
+#[verifier::exec_allows_no_decreases_clause]
+pub fn shim_copy_to_file<'a>(r: &mut ZipFile<'a>, w: &mut fs::File) -> (res: io::Result<u64>)
+    requires zf_wf(old(r)),
+    ensures zf_wf(final(r)), final(r).data == old(r).data,
+{
+    let mut buffer = [0u8; 8192];
+    let mut len: u64 = 0;
+    loop
+        invariant buffer@.len() == 8192, zf_wf(r), r.data == old(r).data,
+    {
+        let n = match r.read(&mut buffer) {
+            Ok(n) => n,
+            Err(e) => return Err(e),
+        };
+        if n == 0 {
+            return Ok(len);
+        }
+        len = len.wrapping_add(n as u64);   // std: `len += n as u64` (2^64 bytes are out of reach)
+        match w.write_all(&buffer[0..n]) {
+            Ok(()) => {}
+            Err(e) => return Err(e),
+        }
+    }
 }
 // T15: `struct Extractor` and its visitor impl are items nested in the body of ZipStreamReader::extract; Rust gives
 // nested items no access to the enclosing function's locals, so they are verified at module level (same text).
